@@ -23,6 +23,7 @@ resfile = "seeded/RESULTS.json"
 results = json.load(open(resfile)) if os.path.exists(resfile) else {}
 for sd in seeds:
     meta = json.load(open("seeded/%s/meta.json" % sd))
+    if meta.get("obsolete"): print("%-14s obsolete: %s" % (sd, meta["obsolete"][:100])); continue
     patch = os.path.abspath("seeded/%s/patch.diff" % sd)
     props = [meta["property"]] + meta.get("also", [])
     a = subprocess.run(["git", "-C", TARGET, "apply", "--whitespace=nowarn", patch], capture_output=True, text=True)
